@@ -536,6 +536,41 @@ pub fn run_sophia_on<D: SetDataset + CollectibleDataset>(quads: &[MQ], sha384: b
     } else {
         classify(rdfc10::relabel_with::<sophia_c14n::hash::Sha256, _>(&d, df, pl))
     };
+    // the document must not depend on the writer: a block-structured writer (accepts only what fits in
+    // its current block of 13 bytes: short writes at every offset) must receive the same bytes, and a
+    // writer with room for half of them must make the call fail
+    if r1.is_ok() {
+        struct Block(Vec<u8>, Option<usize>);
+        impl std::io::Write for Block {
+            fn write(&mut self, b: &[u8]) -> std::io::Result<usize> {
+                let mut room = 13 - self.0.len() % 13;
+                if let Some(cap) = self.1 {
+                    room = room.min(cap.saturating_sub(self.0.len()));
+                }
+                let n = b.len().min(room);
+                self.0.extend_from_slice(&b[..n]);
+                Ok(n)
+            }
+            fn flush(&mut self) -> std::io::Result<()> {
+                Ok(())
+            }
+        }
+        for cap in [None, Some(out.len() / 2)] {
+            let mut w = Block(vec![], cap);
+            let r = if sha384 {
+                rdfc10::normalize_with::<sophia_c14n::hash::Sha384, _, _>(&d, &mut w, df, pl).map_err(|e| e.to_string())
+            } else {
+                rdfc10::normalize_with::<sophia_c14n::hash::Sha256, _, _>(&d, &mut w, df, pl).map_err(|e| e.to_string())
+            };
+            match (cap, r) {
+                (None, Ok(())) if w.0 == out => {}
+                (None, other) => return Err(format!("writer: a writer doing short writes received {} bytes ({other:?}), a Vec received {}", w.0.len(), out.len())),
+                (Some(c), Err(_)) if w.0.len() <= c && out.starts_with(&w.0) => {}
+                (Some(_), Ok(())) if out.is_empty() => {}
+                (Some(c), other) => return Err(format!("writer: a writer with room for {c} of {} bytes: {other:?}, {} bytes accepted", out.len(), w.0.len())),
+            }
+        }
+    }
     let is_default = df == rdfc10::DEFAULT_DEPTH_FACTOR && pl == rdfc10::DEFAULT_PERMUTATION_LIMIT;
     let res = match (r1, r2) {
         (Ok(()), Ok((cq, idmap))) => {
@@ -1221,7 +1256,8 @@ impl Check for C06 {
         let got = match got {
             Ok(Ok(r)) => r,
             Ok(Err(incoherent)) => {
-                ctx.fail("c14n/entry-points-disagree", format!("{incoherent}\n{}", show_quads(&qs)));
+                let sig = if incoherent.starts_with("writer:") { "c14n/output-depends-on-writer" } else { "c14n/entry-points-disagree" };
+                ctx.fail(sig, format!("{incoherent}\n{}", show_quads(&qs)));
                 return;
             }
             Err(p) => {
